@@ -3,6 +3,8 @@
 
   tools/mutants.py reverts [--only <commit>...]   every 'fixed:' entry of known_findings.txt: the fix commit is reverted in a
                                                   scratch worktree and the checks of the properties it lists must go red
+  tools/mutants.py refactors                      every /verif/refactors/<name>/patch.diff (a behaviour-preserving refactoring written by an
+                                                  independent sub-agent) is applied to a scratch worktree and ALL checks must stay green
   tools/mutants.py seeded  [--only <id>...]       every /verif/seeded/<id>/patch.diff is applied to a scratch worktree and the
                                                   checks of meta.json's property must go red
   options: --tier quick|thorough   --jobs N   --all-props (run all 20 checks on every mutant: false-alarm matrix)
@@ -42,6 +44,17 @@ def seeded_entries():
     return out
 
 
+def refactor_entries():
+    """Behaviour-preserving refactorings (/verif/refactors/<name>/patch.diff): every check must stay green on them."""
+    out = {}
+    d = os.path.join(VERIF, "refactors")
+    for name in sorted(os.listdir(d)) if os.path.isdir(d) else []:
+        patch = os.path.join(d, name, "patch.diff")
+        if os.path.exists(patch):
+            out[name] = dict(props=[], what="behaviour-preserving refactoring", patch=patch)
+    return out
+
+
 def run_mutant(kind, key, entry, tier, all_props):
     wt = tempfile.mkdtemp(prefix=f"op2mut.{key}.", dir=os.environ.get("TMPDIR", "/tmp"))
     os.rmdir(wt)
@@ -74,10 +87,10 @@ def run_mutant(kind, key, entry, tier, all_props):
 
 def main():
     args = sys.argv[1:]
-    if not args or args[0] not in ("reverts", "seeded"):
+    if not args or args[0] not in ("reverts", "seeded", "refactors"):
         print(__doc__)
         return 2
-    kind = "revert" if args[0] == "reverts" else "seeded"
+    kind = "revert" if args[0] == "reverts" else ("seeded" if args[0] == "seeded" else "refactor")
     tier, jobs, only, all_props = "quick", 4, [], False
     i = 1
     while i < len(args):
@@ -93,7 +106,9 @@ def main():
                 only.append(args[i]); i += 1
         else:
             i += 1
-    entries = fixed_entries() if kind == "revert" else seeded_entries()
+    entries = fixed_entries() if kind == "revert" else (seeded_entries() if kind == "seeded" else refactor_entries())
+    if kind == "refactor":
+        all_props = True
     if only:
         entries = {k: v for k, v in entries.items() if k in only}
     with ThreadPoolExecutor(max_workers=jobs) as ex:
@@ -109,6 +124,8 @@ def main():
             status = "CAUGHT" if x["rc"] == 1 else ("machinery-failure" if x["rc"] == 2 else "not caught")
             if expected and x["rc"] != 1:
                 missed += 1
+            if kind == "refactor" and x["rc"] != 0:
+                missed += 1                      # a false alarm (or a machinery failure) on behaviour-preserving code
             if expected or x["rc"] != 0:
                 print(f"{r['mutant']:10s} {pid} {'(expected)' if expected else '(other)   '} {status:18s} {x['wall_s']:6.1f}s {' '.join(x['signatures'][:3])} {x['err'][:200]}")
     out = os.path.join(VERIF, "seeded", f"RESULTS_{kind}.json")
